@@ -3,6 +3,8 @@ import XrsVerif.Proofs.PolygonizeOrbit
 import XrsVerif.Proofs.PolygonizeRegions
 import XrsVerif.Proofs.PolygonizeLossless
 import XrsVerif.Proofs.PolygonizeLosslessB
+import XrsVerif.Proofs.PolygonizeGlue
+import XrsVerif.Gen.PolygonizeFacts
 /-
   C15 -- polygonize is lossless.
 
@@ -42,6 +44,17 @@ import XrsVerif.Proofs.PolygonizeLosslessB
   invariant shows that every boundary edge whose upper pixel is in the raster lies on exactly one followed cycle,
   so going up a column the winding number flips exactly where region membership does; discrete Green gives area
   and orientation.
+
+  Wrapper glue (section at the end; facts regenerated from the source by harness/facts_polygonize.py):
+  * `glue_numpy_as_modelled`, `glue_passes_through`, `glue_no_narrowing_cast`   the generated facts of
+                              `_polygonize_numpy` / `polygonize()` are the ones the model assumes: row-major
+                              flattening, the nx = 1 workaround, no way out other than `_scan`'s result; mask and
+                              transform reach the kernel uncast, no supplied transform is dropped; every raster dtype
+                              reaches the kernel in a dtype that keeps all its values and its `_is_close` kind;
+  * `int_cast_keeps_iff`      the integer part of that table is exact (C conversion = identity on the source range);
+  * `wrapper_is_numpy`, `wrapper_transform_every_vertex`, `wrapper_lossless`   hence the wrapper (as the facts describe
+                              it) is `polygonizeNumpy` on the caller's own values and transform: column values are the
+                              raster's, the given transform is applied to every vertex, the result is lossless.
 
   What is outside: that the hand model is `polygonize.py` (checked by the correspondence run: exact comparison
   of region array, column and every vertex on all small rasters and random larger ones, plus an independent
@@ -401,6 +414,137 @@ example :
     let sc := scan 3 3 false eqI ringV (fun _ => true)
     (sc.polys.getD 0 []).map area2 = [18, -2] ∧ (sc.polys.getD 1 []).map area2 = [2] ∧
       (List.range 9).countP (fun p => regionId 3 3 false eqI ringV (fun _ => true) p == 1) = 8 := by
+  decide +kernel
+
+/-! ### wrapper glue: `polygonize()` and `_polygonize_numpy` around the numba pipeline
+
+  The facts `Gen.PolygonizeFacts.wrapperFacts` / `numpyFacts` are regenerated from the source on every run.
+  `wrapperModel F cast close dropIf src …` (Model/PolygonizeGlue.lean) is the wrapper as facts `F` describe it: the
+  values of a `src` raster are cast to the dtype `F` records for `src`, compared by that dtype's `_is_close`, and a
+  supplied transform is replaced by `None` when a recorded drop condition holds.  A cast that loses values of some
+  accepted dtype (e.g. uint64 -> int64), a cast to the other `_is_close` kind, or any condition under which a
+  supplied transform does not reach the kernel makes one of the `decide`s below fail. -/
+
+open XrsVerif.Gen.PolygonizeFacts in
+/-- `_polygonize_numpy` is what `polygonizeNumpy` models: its only way out is the result of
+    `_scan(values, mask, connectivity_8, transform, nx, ny)`, arrays are flattened row-major, and for `nx == 1` a
+    second, masked-out column is appended on the right -/
+theorem glue_numpy_as_modelled : numpyFacts.asModelled = true := by decide
+
+open XrsVerif.Gen.PolygonizeFacts in
+/-- `polygonize()`: every source shape was recognised; mask and transform reach the kernel with their own dtype, a
+    supplied transform is dropped on no path, the third argument is `connectivity == 8` -/
+theorem glue_passes_through : wrapperFacts.passesThrough = true := by decide
+
+open XrsVerif.Gen.PolygonizeFacts in
+/-- **no narrowing cast**: for every raster dtype the facts record the dtype at the kernel, and the step from the one to
+    the other keeps every value of the raster dtype and its `_is_close` kind (`glueSafe`) -/
+theorem glue_no_narrowing_cast (s : DType) :
+    (wrapperFacts.valuesAtKernel.lookup s).map (glueSafe s) = some true := by
+  cases s <;> decide
+
+/-- the integer part of `keepsValues` is exact: the C conversion to `t` returns every value of `s` unchanged iff
+    `keepsValues s t` -/
+theorem int_cast_keeps_iff (s t : DType) (hs : s.isInt = true) (ht : t.isInt = true) :
+    keepsValues s t = true ↔ ∀ v, s.inRange v = true → wrapTo t v = v := by
+  constructor
+  · exact fun h v hv => wrapTo_keeps s t hs ht h v hv
+  · intro h
+    cases hk : keepsValues s t with
+    | true => rfl
+    | false =>
+      obtain ⟨v, hv, hne⟩ := wrapTo_loses s t hs ht hk
+      exact absurd (h v hv) hne
+
+open XrsVerif.Gen.PolygonizeFacts in
+/-- **The wrapper is `_polygonize_numpy` on the caller's own values and transform.**  For every raster dtype `src`,
+    every cast that is the identity where `glueSafe` (`hcast`), every family of closeness tests that does not change
+    along a `glueSafe` step (`hclose`), and *whatever* the drop conditions mean (`dropIf` arbitrary). -/
+theorem wrapper_is_numpy {V : Type} (cast : DType → DType → V → V) (close : DType → V → V → Bool)
+    (dropIf : String → List Rat → Bool)
+    (hcast : ∀ s t v, glueSafe s t = true → cast s t v = v)
+    (hclose : ∀ s t, glueSafe s t = true → close t = close s)
+    (src : DType) (nx ny : Nat) (conn8 : Bool) (values : Nat → V) (mask : Nat → Bool)
+    (transform : Option (List Rat)) :
+    wrapperModel wrapperFacts cast close dropIf src nx ny conn8 values mask transform =
+      polygonizeNumpy nx ny conn8 (close src) values mask transform := by
+  have h := glue_no_narrowing_cast src
+  cases ht : wrapperFacts.valuesAtKernel.lookup src with
+  | none => rw [ht] at h; cases h
+  | some t =>
+  rw [ht] at h
+  have hs : glueSafe src t = true := by simpa using h
+  have hd : wrapperFacts.transformDrops = [] := by decide
+  have hv : (fun ij => cast src t (values ij)) = values := funext fun ij => hcast _ _ _ hs
+  simp only [wrapperModel, ht, hd, bind_noDrop, hclose _ _ hs, hv]
+
+open XrsVerif.Gen.PolygonizeFacts in
+/-- **a supplied affine transform is applied to every vertex -- through the wrapper**: the polygons returned for
+    `transform = some t` are those returned without a transform, every vertex mapped by `t`; the column (the raster's
+    own values) and success are unchanged -/
+theorem wrapper_transform_every_vertex {V : Type} (cast : DType → DType → V → V) (close : DType → V → V → Bool)
+    (dropIf : String → List Rat → Bool)
+    (hcast : ∀ s t v, glueSafe s t = true → cast s t v = v)
+    (hclose : ∀ s t, glueSafe s t = true → close t = close s)
+    (src : DType) (nx ny : Nat) (conn8 : Bool) (values : Nat → V) (mask : Nat → Bool) (t : List Rat) :
+    let out := wrapperModel wrapperFacts cast close dropIf src nx ny conn8 values mask (some t)
+    let out0 := polygonizeNumpy nx ny conn8 (close src) values mask none
+    out.polys = out0.polys.map (fun rings => rings.map (fun ring => ring.map (fun p => affineR t p))) ∧
+      out.column = out0.column ∧ out.ok = out0.ok := by
+  intro out out0
+  have := wrapper_is_numpy cast close dropIf hcast hclose src nx ny conn8 values mask (some t)
+  show (wrapperModel wrapperFacts cast close dropIf src nx ny conn8 values mask (some t)).polys = _ ∧
+    (wrapperModel wrapperFacts cast close dropIf src nx ny conn8 values mask (some t)).column = _ ∧
+    (wrapperModel wrapperFacts cast close dropIf src nx ny conn8 values mask (some t)).ok = _
+  rw [this]
+  exact transform_every_vertex nx ny conn8 (close src) values mask t
+
+open XrsVerif.Gen.PolygonizeFacts in
+/-- **losslessness through the wrapper** (no transform): the public function's result on a `src` raster is the
+    lossless result of `lossless_numpy` for the raster's own values (closeness of `src` an equivalence) -/
+theorem wrapper_lossless {V : Type} (cast : DType → DType → V → V) (close : DType → V → V → Bool)
+    (dropIf : String → List Rat → Bool)
+    (hcast : ∀ s t v, glueSafe s t = true → cast s t v = v)
+    (hclose : ∀ s t, glueSafe s t = true → close t = close s)
+    (src : DType) (nx ny : Nat) (conn8 : Bool) (values : Nat → V) (mask : Nat → Bool) (hnx : 0 < nx)
+    (hrefl : ∀ a, close src a a = true)
+    (hsymm : ∀ a b, close src a b = true → close src b a = true)
+    (htrans : ∀ a b c, close src a b = true → close src b c = true → close src a c = true) :
+    let out := wrapperModel wrapperFacts cast close dropIf src nx ny conn8 values mask none
+    out.ok = true ∧
+    ∃ polysInt : List (List Ring),
+      out.polys = polysInt.map (fun rings => rings.map (fun r => r.map toRat)) ∧
+      (if nx = 1 then
+        losslessB 2 ny conn8 (close src) (fun ij => values (ij / 2))
+          (fun ij => decide (ij % 2 = 0) && mask (ij / 2)) out.column polysInt
+       else losslessB nx ny conn8 (close src) values mask out.column polysInt) = true := by
+  intro out
+  have h : out = polygonizeNumpy nx ny conn8 (close src) values mask none :=
+    wrapper_is_numpy cast close dropIf hcast hclose src nx ny conn8 values mask none
+  rw [h]
+  exact lossless_numpy nx ny conn8 (close src) values mask hnx hrefl hsymm htrans
+
+/-! non-vacuity of the glue theorems, and what a lossy cast / a dropped transform look like -/
+
+/-- the hypotheses `hcast` / `hclose` hold for the identity cast and one closeness test -/
+example : (∀ (s t : DType) (v : Int), glueSafe s t = true → (fun _ _ v => v : DType → DType → Int → Int) s t v = v) ∧
+    (∀ s t : DType, glueSafe s t = true → (fun _ => eqI : DType → Int → Int → Bool) t = (fun _ => eqI) s) :=
+  ⟨fun _ _ _ _ => rfl, fun _ _ _ => rfl⟩
+/-- widening casts are accepted, narrowing ones and changes of the `_is_close` kind are not -/
+example : glueSafe .i32 .i64 = true ∧ glueSafe .u8 .i16 = true ∧ glueSafe .f32 .f64 = true ∧
+    glueSafe .u64 .i64 = false ∧ glueSafe .i64 .f64 = false ∧ glueSafe .i32 .f64 = false ∧
+    glueSafe .f64 .f32 = false ∧ glueSafe .i8 .u64 = false := by decide
+/-- uint64 -> int64 wraps the upper half of the range: 2^63 becomes -2^63, 2^64 - 1 becomes -1 -/
+example : wrapTo .i64 (2 ^ 63) = -(2 ^ 63) ∧ wrapTo .i64 (2 ^ 64 - 1) = -1 ∧ DType.u64.inRange (2 ^ 63) = true := by
+  decide
+/-- facts with a drop condition: the model hands back untransformed vertices when the condition holds -/
+example :
+    let F : WrapperFacts := { Gen.PolygonizeFacts.wrapperFacts with transformDrops := ["linear part is the unit matrix"] }
+    (wrapperModel F (fun _ _ v => v) (fun _ => eqI) (fun _ _ => true) .i64 1 1 false (fun _ => 1) (fun _ => true)
+        (some [1, 0, 10, 0, 1, 20])).polys = [[[(0, 0), (1, 0), (1, 1), (0, 1), (0, 0)]]] ∧
+    (wrapperModel Gen.PolygonizeFacts.wrapperFacts (fun _ _ v => v) (fun _ => eqI) (fun _ _ => true) .i64 1 1 false
+        (fun _ => 1) (fun _ => true) (some [1, 0, 10, 0, 1, 20])).polys =
+      [[[(10, 20), (11, 20), (11, 21), (10, 21), (10, 20)]]] := by
   decide +kernel
 
 end XrsVerif.C15
